@@ -70,13 +70,25 @@ def ticks(x):
 
 
 class Rig:
-    def __init__(self, tls, front, T):
+    def __init__(self, tls, front, T, servant=0, app0=0):
         from ioflo.aio.http import serving
+        from ioflo.aio.tcp import serving as tcpserving
         from ioflo.base import storing
-        self.store = storing.Store(stamp=0.0)
-        kw = dict(store=self.store, ha=HA, timeout=T * Q, scheme="https" if tls else "http")
-        if tls:
-            kw["context"] = D.Ctx()
+        self.store = storing.Store(stamp=0.0)           # the TCP server's store: the incomers' timers read it
+        if servant:
+            # the HTTP server is handed a ready servant that has a store of its own; the HTTP server's store is
+            # another object, at another stamp, advanced independently (`ticka`)
+            self.app_store = storing.Store(stamp=app0 * Q)
+            if tls:
+                srv = tcpserving.ServerTls(context=D.Ctx(), store=self.store, ha=HA, timeout=T * Q)
+            else:
+                srv = tcpserving.Server(store=self.store, ha=HA, timeout=T * Q)
+            kw = dict(servant=srv, store=self.app_store, ha=HA, timeout=T * Q)
+        else:
+            self.app_store = self.store
+            kw = dict(store=self.store, ha=HA, timeout=T * Q, scheme="https" if tls else "http")
+            if tls:
+                kw["context"] = D.Ctx()
         self.h = serving.Valet(**kw) if front == "valet" else serving.Porter(**kw)
         self.front = front
         self.listen = Listen()
@@ -97,6 +109,9 @@ class Rig:
         name = op[0]
         if name == "tick":
             self.store.stamp = self.store.stamp + op[1] * Q
+        elif name == "ticka":
+            if self.app_store is not self.store:
+                self.app_store.stamp = self.app_store.stamp + op[1] * Q
         elif name == "arrive":
             sock = D.Sock(peer=peer(len(self.socks)), name=HA)
             sock.handshakes.append(("ok",))
@@ -198,7 +213,9 @@ class CHECK(core.Check):
             "serviceConnects, rx i n / tx i n (n bytes moved, 0 = would block), txb (blocked send), eof i, cp i (a parsed "
             "request head: HTTP version, Connection: close / keep-alive, chunked, content-length). Exhaustive: every "
             "schedule of length <= 3 (quick) / <= 4 (thorough) over 10 operations after [arrive, connects], on all four "
-            "server kinds; random: up to 4 connections, 40 operations, T in {0, 3, 8, 16}. Non-trivial = bytes moved on a "
+            "server kinds, built both ways - the HTTP server makes its own servant (one store), or is handed a ready "
+            "Server / ServerTls that has its own store while the HTTP server's store starts at another stamp and advances "
+            "at another rate (`ticka`); random: up to 4 connections, 40 operations, T in {0, 3, 8, 16}. Non-trivial = bytes moved on a "
             "connection after its accept tick and a serviceConnects ran at least T ticks after the accept (so the first "
             "timer alone would have closed it), or a persisted connection outlived T; distinct by the whole case.")
     TRUSTED = ["correspondence: the real Valet / Porter over Server / ServerTls run in-process with listen and socket doubles "
@@ -231,11 +248,15 @@ class CHECK(core.Check):
 
     def exhaustive(self, tier):
         L = 4 if tier == "thorough" else 3
+        k = 0
         for tls in (0, 1):
             for front in ("valet", "porter"):
                 for n in range(1, L + 1):
                     for seq in itertools.product(self.OPS, repeat=n):
-                        yield {"tls": tls, "front": front, "T": 8,
+                        k += 1
+                        servant = k % 2
+                        yield {"tls": tls, "front": front, "T": 8, "servant": servant,
+                               "app0": [0, 3, 8, 100][(k // 2) % 4] if servant else 0,
                                "ops": [["arrive"], ["connects"]] + [list(o) for o in seq] + [["connects"]]}
 
     def generate(self, rng, n, tier):
@@ -243,6 +264,8 @@ class CHECK(core.Check):
             T = rng.choice([0, 3, 8, 8, 16])
             nconn = 0
             ops = []
+            servant = rng.randrange(2)
+            app0 = rng.choice([0, 1, T, 100]) if servant else 0
             for _ in range(rng.choice([6, 12, 24, 40])):
                 x = rng.random()
                 i = rng.randrange(max(nconn, 1))
@@ -253,6 +276,8 @@ class CHECK(core.Check):
                     ops.append(["connects"])
                 elif x < 0.58:
                     ops.append(["tick", rng.choice([1, 1, 2, max(T - 1, 1), T or 5, T + 1, rng.randrange(1, 20)])])
+                    if servant and rng.random() < 0.7:      # the two stores advance at different rates
+                        ops.append(["ticka", rng.choice([0, ops[-1][1], 2 * ops[-1][1], rng.randrange(1, 40)])])
                 elif x < 0.70:
                     ops.append(["rx", i, rng.choice([0, 1, 5, 100])])
                 elif x < 0.82:
@@ -267,7 +292,8 @@ class CHECK(core.Check):
                 else:
                     ops.append(["req", i, rng.choice(["11", "11", "10"]), rng.randrange(2) if rng.random() < 0.4 else 0,
                                 rng.randrange(2), rng.choice(["none", "none", "len", "badlen", "chunked"])])
-            yield {"tls": rng.randrange(2), "front": rng.choice(["valet", "porter"]), "T": T, "ops": ops}
+            yield {"tls": rng.randrange(2), "front": rng.choice(["valet", "porter"]), "T": T, "servant": servant,
+                   "app0": app0, "ops": ops}
 
     # ------------------------------------------------------------------ both sides
     def requests(self, case):
@@ -286,7 +312,7 @@ class CHECK(core.Check):
             return self._impl_at_level(case)
 
     def _impl_at_level(self, case):
-        rig = Rig(bool(case["tls"]), case["front"], case["T"])
+        rig = Rig(bool(case["tls"]), case["front"], case["T"], case.get("servant", 0), case.get("app0", 0))
         lines = ["ok"]
         for op in case["ops"]:
             before = rig.table()
@@ -366,7 +392,8 @@ class CHECK(core.Check):
     def bucket(self, case, out):
         kinds = {op[0] for op in case["ops"]}
         closed = any("closed=" in l and not l.endswith("closed=.") for l in out)
-        return "%s/%s/T%d/%s%s" % ("tls" if case["tls"] else "plain", case["front"], case["T"],
+        return "%s/%s%s/T%d/%s%s" % ("tls" if case["tls"] else "plain", case["front"],
+                                     "+servant@%d" % case.get("app0", 0) if case.get("servant") else "", case["T"],
                                    "persist" if "cp" in kinds else "nopersist", "/closed" if closed else "")
 
     def shrink_candidates(self, case):
